@@ -48,6 +48,17 @@ enum Held {
     Unreadable,
 }
 
+/// a stored transaction record that lists one transaction twice
+fn tx_duplicates(rec: &Option<Record>) -> bool {
+    match rec {
+        Some(r) => match try_deserialize_record::<Vec<Transaction>>(r) {
+            Ok(v) => v.iter().collect::<BTreeSet<_>>().len() != v.len(),
+            Err(_) => false,
+        },
+        None => false,
+    }
+}
+
 fn held(kind: Kind, rec: Option<Record>) -> Held {
     let Some(rec) = rec else { return Held::None };
     match kind {
@@ -418,12 +429,27 @@ fn convergence_case(cx: &mut Cx) {
         }
         let mut d = || true;
         if !sim.settle(&mut d) {
-            cx.inconclusive("replication round did not settle");
+            if sim.settle_ran_out_of_steps {
+                // a logical bound, not a clock: 400000 scheduler steps without quiescence for <= 3 nodes and <= 10 keys
+                cx.violation("replication-exchange-never-quiesces", format!("round {round}: the nodes were still fetching from each other after 400000 scheduler steps (a round normally needs a few thousand)"), wjson(json!({"round": round})));
+            } else {
+                cx.inconclusive("replication round did not settle");
+            }
             let _ = std::fs::remove_dir_all(&root);
             return;
         }
         // monotonicity + progress
         let now = snapshot(&mut sim, &keys);
+        for (ki, kc) in keys.iter().enumerate() {
+            if kc.kind == Kind::Tx {
+                for i in 0..n {
+                    let rec = sim.get_local(i, &kc.key);
+                    if tx_duplicates(&rec) {
+                        cx.violation("stored-transaction-set-lists-a-transaction-twice", format!("round {round}: node {i} stores key {ki} as a list in which one transaction occurs more than once (the record grows with every exchange and never equals its neighbour's)"), wjson(json!({"round": round})));
+                    }
+                }
+            }
+        }
         for (ki, kc) in keys.iter().enumerate() {
             for i in 0..n {
                 cx.eval();
